@@ -59,7 +59,8 @@ func TestVerifReplay(t *testing.T) {
         """out: outcome of the signing call; then the matching verification is executed on the same path"""
         res = []
         if out.kind == 'panic':
-            res.append(('Sign.panic', 'signing panics: %s at %s' % (out.panic.msg, out.panic.pos), info, None))
+            if e.prove_i(False)[0] != 'proved':
+                res.append(('Sign.panic', 'signing panics: %s at %s' % (out.panic.msg, out.panic.pos), info, 'signpanic'))
             return res
         r, s, err = out.values
         if err is not None:
@@ -140,7 +141,9 @@ func TestVerifReplay(t *testing.T) {
             # to the solver (failures that need a special key); the nonce is always pinned (its curve point is needed)
             dmax = min(N - 2, 256 ** klen - 1)
             dv = [ck.rng.randrange(1, dmax + 1), None, ck.rng.randrange(1, min(dmax, 2 ** 247) + 1), ck.rng.randrange(1, dmax + 1), None, ck.rng.randrange(1, 2 ** 64)][attempt]
-            kvs = [ck.rng.randrange(1, N) for _ in range(maxc)]
+            # nonces: random, small (leading zero bytes: rare intermediate values such as short r + k), or left to the solver
+            kmode = ['rand', 'rand', 'small', 'small', 'small', 'free'][attempt]
+            kvs = [ck.rng.randrange(1, N) if kmode == 'rand' else (ck.rng.randrange(1, 2 ** 200) if kmode == 'small' else None) for _ in range(maxc)]
             found = {}
 
             def rerun(e):
@@ -150,6 +153,16 @@ func TestVerifReplay(t *testing.T) {
                 ev, eb = int_input(e, 'e', 32)
                 rd = sm2model.new_reader(e, maxc)
                 out = e.call_outcome(SM2 + '.SignHashed', [rd, priv, eb])
+                if kind == 'signpanic':
+                    if out.kind != 'panic':
+                        return None
+                    pins = ([(d, dv)] if dv is not None else []) + [(k, kv) for k, kv in zip(rd.v.ks, kvs) if kv is not None]
+                    m = solve_with_truth(e, pins, [], timeout=20000 * (1 + attempt))
+                    if m is not None:
+                        found['e'] = mval(m, ev)
+                        found['ks'] = [kv if kv is not None else mval(m, k) for k, kv in zip(rd.v.ks, kvs)]
+                        found['d'] = dv if dv is not None else mval(m, d)
+                    return None
                 if out.kind != 'return' or out.values[2] is not None:
                     return None
                 r, s, err = out.values
@@ -167,11 +180,11 @@ func TestVerifReplay(t *testing.T) {
                         bad = True
                 if not bad:
                     return None
-                pins = ([(d, dv)] if dv is not None else []) + [(k, kv) for k, kv in zip(rd.v.ks, kvs)]
+                pins = ([(d, dv)] if dv is not None else []) + [(k, kv) for k, kv in zip(rd.v.ks, kvs) if kv is not None]
                 m = solve_with_truth(e, pins, extra, timeout=20000 * (1 + attempt))
                 if m is not None:
                     found['e'] = mval(m, ev)
-                    found['ks'] = kvs[:len(rd.v.ks)]
+                    found['ks'] = [kv if kv is not None else mval(m, k) for k, kv in zip(rd.v.ks, kvs)]
                     found['d'] = dv if dv is not None else mval(m, d)
                 return None
             eng2 = proto_engine(prog)
@@ -201,10 +214,6 @@ func TestVerifReplay(t *testing.T) {
 
     for key, fl in sorted(fails.items()):
         f = fl[0]
-        if f[0] == 'Sign.panic':
-            ck.record('signverify[' + key + ']', 'violated', f[1])
-            ck.violation(key, f[1], '-')
-            continue
         w = witness(key, f) if f[2]['level'] == 'hashed' else None
         if w is None and f[2]['level'] == 'message':
             # same defect class as the digest-level one; the digest-level witness is the replay
